@@ -76,6 +76,17 @@ var c13Roles = []c13Role{
 		}[v]
 		return fmt.Sprintf("SecRequestBodyAccess On\nSecRule REQUEST_HEADERS:Content-Type \"@contains json\" \"id:16,phase:1,pass,nolog,ctl:requestBodyProcessor=JSON\"\nSecRule REQUEST_BODY \"@validateSchema %s.json\" \"id:15,phase:2,deny,status:415\"\n", s), map[string]string{s + ".json": content}
 	}},
+	{"pmlong", 2, func(s string, v int) (string, map[string]string) {
+		// two phrase lists of equal length that agree on their first seventy
+		// bytes: whatever abbreviates a cache key must still tell them apart
+		return fmt.Sprintf("SecRule ARGS \"@pm %s common-prefix-of-a-long-phrase-list-0123456789-abcdefghijklmnopqrstuvwxyz %s\" \"id:18,phase:1,deny,status:418\"\n", s, []string{"zzz", "qqq"}[v]), nil
+	}},
+	{"tchain", 2, func(s string, v int) (string, map[string]string) {
+		// transformation chains nobody has registered before the run, siblings in
+		// their last step: concurrent builders intern them at the same time
+		last := []string{"lowercase", "uppercase"}[v]
+		return fmt.Sprintf("SecRule ARGS:k \"@rx .\" \"id:19,phase:1,pass,log,t:none,t:urlDecode,t:removeNulls,t:trim,t:%s\"\nSecRule ARGS:k \"@rx .\" \"id:20,phase:1,pass,log,t:none,t:urlDecode,t:removeNulls,t:trimLeft,t:%s\"\nSecRule ARGS:k \"@streq %s\" \"id:21,phase:1,deny,status:421,t:none,t:urlDecode,t:removeNulls,t:%s\"\n", last, last, s, last), nil
+	}},
 	{"nid", 1, func(s string, v int) (string, map[string]string) {
 		return fmt.Sprintf("SecRule ARGS \"@validateNid cl %s\" \"id:7,phase:1,deny,status:407\"\n", s), nil
 	}},
@@ -137,6 +148,9 @@ func c13BuildPool() {
 				}
 				if strings.HasPrefix(a.name, "schema") || strings.HasPrefix(b.name, "schema") {
 					continue // keyed by content digest: no other role can collide with it
+				}
+				if strings.HasPrefix(a.name, "pmlong") || strings.HasPrefix(b.name, "pmlong") || strings.HasPrefix(a.name, "tchain") || strings.HasPrefix(b.name, "tchain") {
+					continue // these two roles meet their own variants (same string), not other roles
 				}
 				files := map[string]string{}
 				for k, v := range a.files {
